@@ -3628,6 +3628,10 @@ class BaseInstance(BaseClass):
         clone_of_self = super().clone(default_value=default_value, **metadata)
         if allow_none is not None:
             clone_of_self._allow_none = allow_none
+            if not isinstance(clone_of_self.klass, str):
+                # The fast validator copied from the original encodes the
+                # original's allow_none.
+                clone_of_self.init_fast_validate()
         return clone_of_self
 
     def create_editor(self):
